@@ -50,31 +50,36 @@ theorem processFactory_reported {cfg : Cfg} {env : Env} {r : Response} {o : Repo
   subst ho
   exact ⟨cf, p, hl, hv, rfl, rfl, rfl, rfl, rfl⟩
 
-/-- The successful path of `processRespFactory` (`response_factory(...)` + `verify()`), taken apart. -/
-theorem processRespFactory_identity_inv {cfg : Cfg} {env : Env} {r : Response} {o : Reported}
+/-- `response_factory(...)` + `verify()` yields identity only if `authn_response()` + `loads()` + `verify()` does,
+    with the same report: every `*_factory` theorem transfers. -/
+theorem processRespFactory_identity {cfg : Cfg} {env : Env} {r : Response} {o : Reported}
     (h : processRespFactory cfg env r = .identity o) :
-    ∃ p,
-      loadsStatus r = .ok () ∧
-      verify cfg env cfg.wantAssert {} r = .ok (some p) ∧
-      ∃ a rest s srest, p.used = a :: rest ∧ a.authn = s :: srest ∧
-        o = { nameId := p.st.nameId, issuer := pyStrip (r.issuer.getD ""), cameFrom := p.st.cameFrom,
-              notOnOrAfter := if p.st.sessionNooa > 0 then p.st.sessionNooa else p.st.notOnOrAfter,
-              sessionIndex := s.sessionIndex, cached := false } := by
+    loadsStatus r = .ok () ∧ processFactory cfg env r = .identity o := by
   unfold processRespFactory at h
   split at h
   · cases h
-  next u hl =>
-    split at h
-    · cases h
-    · cases h
-    next p hv =>
-      split at h
-      · cases h
-      next a rest hused =>
-        split at h
-        next s srest hauthn =>
-          cases h
-          exact ⟨p, hl, hv, a, rest, s, srest, hused, hauthn, rfl⟩
-        · cases h
+  next u hl => exact ⟨hl, h⟩
+
+/-- The successful path of `processRespFactory`, taken apart. -/
+theorem processRespFactory_identity_inv {cfg : Cfg} {env : Env} {r : Response} {o : Reported}
+    (h : processRespFactory cfg env r = .identity o) :
+    ∃ cf p,
+      loads cfg env false r = .ok cf ∧
+      verify cfg env cfg.wantAssert { cameFrom := cf } r = .ok (some p) ∧
+      ∃ a rest s srest, p.used = a :: rest ∧ a.authn = s :: srest ∧
+        o = { nameId := p.st.nameId, issuer := pyStrip (r.issuer.getD ""), cameFrom := p.st.cameFrom,
+              notOnOrAfter := if p.st.sessionNooa > 0 then p.st.sessionNooa else p.st.notOnOrAfter,
+              sessionIndex := s.sessionIndex, cached := false } :=
+  processFactory_identity_inv (processRespFactory_identity h).2
+
+/-- The first load adds nothing the second does not test: on every message the two entry points agree. -/
+theorem processRespFactory_eq (cfg : Cfg) (env : Env) (r : Response) :
+    processRespFactory cfg env r = processFactory cfg env r := by
+  unfold processRespFactory loadsStatus
+  by_cases hbad : (r.sig.present && r.sig != .valid) = true
+  · rw [if_pos hbad]
+    unfold processFactory loads
+    rw [if_pos hbad]
+  · rw [if_neg hbad]
 
 end Sp
